@@ -162,7 +162,7 @@ def run(ctx, report: Report) -> None:
     list_union_table(ctx, r6, deep=(ctx.tier == 'thorough'))
 
     # ---- R7 (the whole pipeline by interpretation, bounded) --------------------------------------------------------------
-    r7 = report.rule('C05-R7', 'union / complement / intersection laws on reference trees (whole pipeline; bounded)', floor=2)
+    r7 = report.rule('C05-R7', 'union / complement / intersection laws on reference trees (whole pipeline; bounded)', floor=90)
     from .e2ematch import boolean_algebra_table
     boolean_algebra_table(ctx, r7, deep=(ctx.tier == 'thorough'))
     from .e2ematch import long_list_table
